@@ -12,20 +12,20 @@ LIVE = SAFE + ["Proofs/ExecLive.v", "Proofs/ExecMeasure.v", "Proofs/ExecLiveCor.
 
 TABLE = {
     "C01": dict(kinds=["block", "step", "dep", "cblock"], oracle=oracles.c01, cone=SAFE, n=(70, 700)),
-    "C02": dict(kinds=["block", "step", "dep", "cblock", "cstep"], oracle=oracles.c02, cone=LIVE, n=(70, 700)),
+    "C02": dict(kinds=["block", "step", "dep", "cblock", "cstep", "ublock"], oracle=oracles.c02, cone=LIVE, n=(70, 700)),
     "C03": dict(kinds=["dep"], oracle=oracles.c03,
                 cone=["Model/Exec.v", "Model/ExecInv.v", "Model/StepExec.v", "Model/DepExec.v", "Proofs/ExecLive.v", "Proofs/DepSafe.v",
                       "Model/Traverse.v", "Proofs/TraverseProofs.v", "Model/LiveSpec.v", "Proofs/DepLive.v", "Proofs/DepLiveCor.v"], n=(180, 1500)),
     "C04": dict(kinds=["dep", "step", "block"], oracle=oracles.c04,
                 cone=["Model/Exec.v", "Model/ExecInv.v", "Model/StepExec.v", "Model/DepExec.v", "Model/Worker.v", "Proofs/ExecLive.v",
                       "Proofs/DepSafe.v", "Proofs/C04Proofs.v"], n=(70, 700)),
-    "C05": dict(kinds=["block", "step", "dep", "cblock", "cstep"], oracle=oracles.c05, cone=LIVE, n=(70, 700)),
+    "C05": dict(kinds=["block", "step", "dep", "cblock", "cstep", "ublock"], oracle=oracles.c05, cone=LIVE, n=(70, 700)),
     "C06": dict(kinds=["block", "step", "dep", "cblock", "cstep", "fexec"], oracle=oracles.c06, cone=SAFE, n=(70, 700)),
     "C07": dict(kinds=["step", "dep", "block", "cstep"], oracle=oracles.c07,
                 cone=SAFE + ["Model/StepExec.v", "Model/LiveSpec.v", "Proofs/StepSafe.v", "Proofs/StepLive.v", "Proofs/StepLiveCor.v",
                              "Proofs/DictFacts.v", "Proofs/C10Proofs.v"], n=(90, 800)),
     "C11": dict(kinds=["block", "step", "dep", "cblock", "cstep"], oracle=oracles.c11, cone=SAFE + ["Model/StepExec.v", "Proofs/StepSafe.v"], n=(70, 700)),
-    "C12": dict(kinds=["block", "step", "dep", "cblock", "cstep"], oracle=oracles.c12, cone=LIVE, n=(70, 700)),
+    "C12": dict(kinds=["block", "step", "dep", "cblock", "cstep", "ublock"], oracle=oracles.c12, cone=LIVE, n=(70, 700)),
 }
 
 RULE = ("seeded programs of submit / cancel / result / shutdown(wait, cancel_futures) / with-exit operations (implicit drop at "
